@@ -59,6 +59,9 @@ inline bool isnan_(int64_t) { return false; }
 template<class T> bool same(T a, T b) { return bits(a) == bits(b) || (isnan_(a) && isnan_(b)); }
 template<class R> bool same(std::complex<R> a, std::complex<R> b) { return same(a.real(), b.real()) && same(a.imag(), b.imag()); }
 inline bool same(bool a, bool b) { return a == b; }
+// arithmetic results: for complex lanes the sign of an exact zero component depends on the (equally valid) formula used
+template<class T> bool sameval(T a, T b) { return same(a, b); }
+template<class R> bool sameval(std::complex<R> a, std::complex<R> b) { return same(a, b) || a == b; }
 
 template<class T> std::string hex(T x) { char buf[40]; std::snprintf(buf, sizeof buf, "%llx", (unsigned long long)bits(x)); return buf; }
 template<class R> std::string hex(std::complex<R> x) { return hex(x.real()) + "+i" + hex(x.imag()); }
@@ -261,7 +264,7 @@ template<class V> struct Chk {
             for (size_t i = 0; i < N; ++i) if (!refbin(o, a[i], b[i], G, want[i], alt[i])) skip = true;
             if (skip) continue;
             V r = f(mk<V>(a), mk<V>(b), a[0], b[0]); un(r, got);
-            for (size_t i = 0; i < N; ++i) { ++R.n; if (!same(got[i], want[i]) && !same(got[i], alt[i])) { R.fail(ctx(a, b, nullptr, got, want, i)); break; } }
+            for (size_t i = 0; i < N; ++i) { ++R.n; if (!sameval(got[i], want[i]) && !sameval(got[i], alt[i])) { R.fail(ctx(a, b, nullptr, got, want, i)); break; } }
         }
         R.end();
     }
@@ -273,7 +276,7 @@ template<class V> struct Chk {
             for (size_t i = 0; i < N; ++i) if (!refter(o, cs.a[i], cs.b[i], cs.c[i], G, want[i], alt[i])) skip = true;
             if (skip) continue;
             V r = f(mk<V>(cs.a), mk<V>(cs.b), mk<V>(cs.c)); un(r, got);
-            for (size_t i = 0; i < N; ++i) { ++R.n; if (!same(got[i], want[i]) && !same(got[i], alt[i])) { R.fail(ctx(cs.a, cs.b, cs.c, got, want, i)); break; } }
+            for (size_t i = 0; i < N; ++i) { ++R.n; if (!sameval(got[i], want[i]) && !sameval(got[i], alt[i])) { R.fail(ctx(cs.a, cs.b, cs.c, got, want, i)); break; } }
         }
         R.end();
     }
@@ -362,6 +365,7 @@ template<class V> typename std::enable_if<has_aligned<V>::value>::type do_aligne
 template<class V> typename std::enable_if<!has_aligned<V>::value>::type do_aligned_store(const V& v, typename V::scalar_value_type* p) { v.store(p, true); }
 
 inline sigjmp_buf& guard_env() { static sigjmp_buf e; return e; }
+inline std::string& g_where() { static std::string w; return w; }   // the access being executed (reported when it faults)
 inline void guard_handler(int) { siglongjmp(guard_env(), 1); }
 
 // ---- load / store / masks with canaries --------------------------------------------------------------------------
@@ -371,6 +375,8 @@ template<class V> void check_memory(Rep& R, unsigned seed, size_t nrand) {
     using T = typename V::scalar_value_type; constexpr size_t N = V::Size;
     auto P = pool<T>::get(); Rng rng(seed * 13 + 7);
     static Buf<T> src, dst;
+    struct sigaction sa0, old0; std::memset(&sa0, 0, sizeof sa0); sa0.sa_handler = guard_handler; sigemptyset(&sa0.sa_mask); sa0.sa_flags = SA_NODEFER;
+    sigaction(SIGSEGV, &sa0, &old0); sigaction(SIGBUS, &sa0, nullptr);
     constexpr size_t TOT = Buf<T>::PAD * 2 + 64;
     auto fill_src = [&](size_t k) { for (size_t i = 0; i < TOT; ++i) src.raw[i] = P[(k * 3 + i * 5) % P.size()]; };
     auto fill_dst = [&]() { for (size_t i = 0; i < TOT; ++i) dst.raw[i] = canary<T>(i); };
@@ -381,28 +387,32 @@ template<class V> void check_memory(Rep& R, unsigned seed, size_t nrand) {
     for (int form = 0; form < 5; ++form) {
         static const char* names[] = {"load_aligned", "load_unaligned", "aligned_load", "ctor_ptr_aligned", "ctor_ptr_unaligned"};
         R.begin(names[form]);
+        if (sigsetjmp(guard_env(), 1) == 0) {
         bool al = (form == 0 || form == 2 || form == 3);
         for (size_t k = 0; k < 12; ++k) { fill_src(k);
             for (size_t off = 0; off < (al ? 2 : 5); ++off) {
                 size_t o = al ? offs_al[off] : off; if (al && off == 1 && o == 0) continue;
-                const T* p = src.at(o); T got[N];
+                const T* p = src.at(o); T got[N]; g_where() = "load at element offset " + std::to_string(o) + " of a 64-byte aligned buffer";
                 if (form == 0) { V v; v.load(p, true); un(v, got); } else if (form == 1) { V v; v.load(p, false); un(v, got); }
                 else if (form == 2) { V v; do_aligned_load(v, p); un(v, got); } else if (form == 3) { V v(p, true); un(v, got); } else { V v(p, false); un(v, got); }
                 for (size_t i = 0; i < N; ++i) { ++R.n; if (!same(got[i], p[i])) { R.fail("offset=" + std::to_string(o) + " lane=" + std::to_string(i) + " mem=" + hexv(p, N) + " got=" + hexv(got, N)); break; } } } }
+        } else R.fail("fault (SIGSEGV) at " + g_where() + " (e.g. an aligned-access instruction on an unaligned address, or an access outside the vector)");
         R.end();
     }
     for (int form = 0; form < 3; ++form) {
         static const char* names[] = {"store_aligned", "store_unaligned", "aligned_store"};
         R.begin(names[form]);
+        if (sigsetjmp(guard_env(), 1) == 0) {
         bool al = form != 1;
         for (size_t k = 0; k < 12; ++k) { fill_src(k); V v = mk<V>(src.at(0));
             for (size_t off = 0; off < (al ? 2 : 5); ++off) {
                 size_t o = al ? offs_al[off] : off; if (al && off == 1 && o == 0) continue;
-                fill_dst(); T* p = dst.at(o);
+                fill_dst(); T* p = dst.at(o); g_where() = "store at element offset " + std::to_string(o) + " of a 64-byte aligned buffer";
                 if (form == 0) v.store(p, true); else if (form == 1) v.store(p, false); else do_aligned_store(v, p);
                 std::string why;
                 for (size_t i = 0; i < N; ++i) { ++R.n; if (!same(p[i], src.at(0)[i])) { R.fail("offset=" + std::to_string(o) + " lane=" + std::to_string(i) + " want=" + hexv(src.at(0), N) + " mem=" + hexv(p, N)); break; } }
                 if (!canaries_ok(o, why)) R.fail(why); } }
+        } else R.fail("fault (SIGSEGV) at " + g_where() + " (e.g. an aligned-access instruction on an unaligned address, or an access outside the vector)");
         R.end();
     }
     // masks: bit j of the mask enables lane j.  All masks when N <= 8, otherwise walking / boundary / seeded masks.
@@ -414,20 +424,24 @@ template<class V> void check_memory(Rep& R, unsigned seed, size_t nrand) {
     for (int al = 0; al < 2; ++al) {
         R.begin(al ? "mask_store_aligned" : "mask_store_unaligned");
         size_t k = 0;
+        if (sigsetjmp(guard_env(), 1) == 0) {
         for (uint32_t m : masks) { fill_src(k++); V v = mk<V>(src.at(0)); fill_dst();
-            size_t o = al ? 0 : (k % 3); T* p = dst.at(o);
+            size_t o = al ? 0 : (k % 3); T* p = dst.at(o); g_where() = "mask_store mask=0x" + hex((int32_t)m) + " at element offset " + std::to_string(o) + " of a 64-byte aligned buffer";
             v.mask_store(p, m, al != 0);
             std::string why;
             for (size_t i = 0; i < N; ++i) { ++R.n; T w = ((m >> i) & 1) ? src.at(0)[i] : canary<T>(Buf<T>::PAD + o + i);
                 if (!same(p[i], w)) { R.fail("mask=0x" + hex((int32_t)m) + " lane=" + std::to_string(i) + (((m >> i) & 1) ? " (enabled)" : " (disabled lane written)") + " vec=" + hexv(src.at(0), N) + " mem=" + hexv(p, N) + " before=" + hex(canary<T>(Buf<T>::PAD + o + i))); break; } }
             if (!canaries_ok(o, why)) R.fail("mask=0x" + hex((int32_t)m) + " " + why); }
+        } else R.fail("fault (SIGSEGV) at " + g_where() + " (e.g. an aligned-access instruction on an unaligned address, or an access outside the vector)");
         R.end();
         R.begin(al ? "mask_load_aligned" : "mask_load_unaligned");
+        if (sigsetjmp(guard_env(), 1) == 0) {
         k = 0;
-        for (uint32_t m : masks) { fill_src(k++); size_t o = al ? 0 : (k % 3); const T* p = src.at(o);
+        for (uint32_t m : masks) { fill_src(k++); size_t o = al ? 0 : (k % 3); const T* p = src.at(o); g_where() = "mask_load mask=0x" + hex((int32_t)m) + " at element offset " + std::to_string(o) + " of a 64-byte aligned buffer";
             V v; v.mask_load(p, m, al != 0); T got[N]; un(v, got);
             for (size_t i = 0; i < N; ++i) { if (!((m >> i) & 1)) continue; ++R.n;
                 if (!same(got[i], p[i])) { R.fail("mask=0x" + hex((int32_t)m) + " lane=" + std::to_string(i) + " mem=" + hexv(p, N) + " got=" + hexv(got, N)); break; } } }
+        } else R.fail("fault (SIGSEGV) at " + g_where() + " (e.g. an aligned-access instruction on an unaligned address, or an access outside the vector)");
         R.end();
     }
     // (a fault is caught and reported as a failure of this operation)
@@ -456,6 +470,7 @@ template<class V> void check_memory(Rep& R, unsigned seed, size_t nrand) {
         }
     }
     R.end();
+    sigaction(SIGSEGV, &old0, nullptr); signal(SIGBUS, SIG_DFL);
 }
 
 // ---- reverse, horizontal operations -----------------------------------------------------------------------------------
@@ -549,6 +564,16 @@ template<class V> typename std::enable_if<ti<typename V::scalar_value_type>::is_
             ++R.n; if (!(got == acc)) R.fail("a=" + hexv(a, N) + (which == 2 ? " b=" + hexv(b, N) : std::string()) + " got=" + hex(got) + " want=" + hex(acc)); }
         R.end();
     }
+    // rcp(z) = conj(z)/|z|^2, exact on operands whose squared magnitude is a power of two
+    R.begin("rcp_complex");
+    std::vector<T> Q; for (T z : P) { Re d = z.real() * z.real() + z.imag() * z.imag(); int e; if (d != 0 && std::frexp(d, &e) == (Re)0.5) Q.push_back(z); }
+    for (size_t k = 0; k < ncase; ++k) { T a[N], got[N]; bool skip = false; T want[N];
+        for (size_t i = 0; i < N; ++i) { a[i] = Q[(k * 13 + i * 7) % Q.size()]; Re den = a[i].real() * a[i].real() + a[i].imag() * a[i].imag();
+            int e; if (den == 0 || std::frexp(den, &e) != (Re)0.5) skip = true; else want[i] = T(a[i].real() / den, -(a[i].imag() / den)); }
+        if (skip) continue;
+        V r = rcp(mk<V>(a)); un(r, got);
+        for (size_t i = 0; i < N; ++i) { ++R.n; if (!(got[i] == want[i])) { R.fail("lane=" + std::to_string(i) + " a=" + hexv(a, N) + " got=" + hexv(got, N) + " want_lane=" + hex(want[i])); break; } } }
+    R.end();
     // real() / imag() / norm(): vertical
     R.begin("real_imag_norm");
     for (size_t k = 0; k < ncase; ++k) { T a[N]; for (size_t i = 0; i < N; ++i) a[i] = P[(k * 3 + i * 7) % P.size()];
@@ -702,5 +727,68 @@ inline void run_helpers(unsigned seed) {
 #else
     (void)seed;
 #endif
+}
+
+// ---- kernels translated by C08 that are not SIMDVector members: outer products, register transposes, norms ----------
+namespace sr {
+template<class T, size_t M, size_t N> void check_dyadic(Rep& R, unsigned seed) {
+    char nm[64]; std::snprintf(nm, sizeof nm, "kernel_dyadic_%zu_%zu", M, N);
+    R.begin(nm); Rng rng(seed * 5 + M * 7 + N);
+    // operands end exactly at an unmapped page (a read past the operand faults), result between canaries
+    long pg = sysconf(_SC_PAGESIZE);
+    char* base = (char*)mmap(nullptr, 4 * pg, PROT_READ | PROT_WRITE, MAP_PRIVATE | MAP_ANONYMOUS, -1, 0);
+    if (base == (char*)MAP_FAILED) { R.end(); return; }
+    mprotect(base + pg, pg, PROT_NONE); mprotect(base + 3 * pg, pg, PROT_NONE);
+    T* a = (T*)(base + pg) - M; T* b = (T*)(base + 3 * pg) - N;
+    struct sigaction sa, old; std::memset(&sa, 0, sizeof sa); sa.sa_handler = guard_handler; sigemptyset(&sa.sa_mask); sa.sa_flags = SA_NODEFER; sigaction(SIGSEGV, &sa, &old);
+    alignas(64) static T outbuf[64 + M * N + 64];
+    for (int k = 0; k < 40; ++k) {
+        for (size_t i = 0; i < M; ++i) a[i] = (T)((int)(rng.next() % 41) - 20) / (T)4;
+        for (size_t j = 0; j < N; ++j) b[j] = (T)((int)(rng.next() % 41) - 20) / (T)4;
+        for (size_t i = 0; i < 128 + M * N; ++i) outbuf[i] = canary<T>(i);
+        T* out = outbuf + 64;                    // 64-byte aligned (some specialisations use aligned stores)
+        if (sigsetjmp(guard_env(), 1)) { R.fail("fault inside the kernel: the operands (" + std::to_string(M) + " / " + std::to_string(N) + " elements) end at an unmapped page, the result is 64-byte aligned"); break; }
+        Fastor::_dyadic<T, M, N>(a, b, out);
+        for (size_t i = 0; i < M; ++i) for (size_t j = 0; j < N; ++j) { ++R.n; T w = a[i] * b[j];
+            if (!(out[i * N + j] == w)) R.fail("out[" + std::to_string(i * N + j) + "] a=" + hexv(a, M) + " b=" + hexv(b, N) + " got=" + hex(out[i * N + j]) + " want=" + hex(w)); }
+        for (size_t i = 0; i < 128 + M * N; ++i) { T* p = outbuf + i; if (p >= out && p < out + M * N) continue;
+            if (!same(*p, canary<T>(i))) { R.fail("element " + std::to_string((long)(p - out)) + " relative to the " + std::to_string(M * N) + "-element result was written"); break; } }
+    }
+    sigaction(SIGSEGV, &old, nullptr); munmap(base, 4 * pg);
+    R.end();
+}
+template<class T, size_t N> void check_norm(Rep& R, unsigned seed) {
+    char nm[64]; std::snprintf(nm, sizeof nm, "kernel_norm_%zu", N);
+    R.begin(nm); Rng rng(seed * 3 + N);
+    for (int k = 0; k < 60; ++k) { alignas(64) T a[N + 8]; volatile T acc = 0;
+        for (size_t i = 0; i < N; ++i) { a[i] = (T)((int)(rng.next() % 21) - 10); acc = acc + a[i] * a[i]; }   // integers: every association exact
+        T got = Fastor::_norm<T, N>(a); volatile T w = std::sqrt((T)acc); ++R.n;
+        if (!same(got, (T)w)) R.fail("a=" + hexv(a, N) + " got=" + hex(got) + " want=" + hex((T)w)); }
+    R.end();
+}
+} // namespace sr
+inline void run_kernels(unsigned seed) {
+    sr::Rep R; R.seed = seed;
+    for (int t = 0; t < 2; ++t) {
+        R.head = std::string("simd cfg=") + CFGNAME + " opt=" + OPTNAME + " T=" + (t ? "double" : "float") + " abi=kernel cls=kernel N=0";
+        if (t == 0) { sr::check_dyadic<float, 2, 2>(R, seed); sr::check_dyadic<float, 3, 3>(R, seed); sr::check_dyadic<float, 4, 4>(R, seed); sr::check_dyadic<float, 1, 1>(R, seed); sr::check_dyadic<float, 2, 3>(R, seed);
+                      sr::check_norm<float, 4>(R, seed); sr::check_norm<float, 9>(R, seed); sr::check_norm<float, 6>(R, seed); }
+        else { sr::check_dyadic<double, 2, 2>(R, seed); sr::check_dyadic<double, 3, 3>(R, seed); sr::check_dyadic<double, 4, 4>(R, seed); sr::check_dyadic<double, 1, 1>(R, seed); sr::check_dyadic<double, 3, 2>(R, seed);
+               sr::check_norm<double, 4>(R, seed); sr::check_norm<double, 9>(R, seed); sr::check_norm<double, 5>(R, seed); }
+#ifdef FASTOR_AVX_IMPL
+        if (t == 0) { R.begin("kernel_transpose8_ps"); sr::Rng rng(seed + 77);
+            for (int k = 0; k < 20; ++k) { alignas(32) float m[8][8]; __m256 r[8];
+                for (int i = 0; i < 8; ++i) { for (int j = 0; j < 8; ++j) m[i][j] = (float)(int)(rng.next() % 1000); r[i] = _mm256_load_ps(m[i]); }
+                Fastor::internal::_MM_TRANSPOSE8_PS(r[0], r[1], r[2], r[3], r[4], r[5], r[6], r[7]);
+                for (int i = 0; i < 8; ++i) { alignas(32) float o[8]; _mm256_store_ps(o, r[i]); for (int j = 0; j < 8; ++j) { ++R.n; if (o[j] != m[j][i]) R.fail("row " + std::to_string(i) + " col " + std::to_string(j)); } } }
+            R.end(); }
+        else { R.begin("kernel_transpose4_pd"); sr::Rng rng(seed + 78);
+            for (int k = 0; k < 20; ++k) { alignas(32) double m[4][4]; __m256d r[4];
+                for (int i = 0; i < 4; ++i) { for (int j = 0; j < 4; ++j) m[i][j] = (double)(int)(rng.next() % 1000); r[i] = _mm256_load_pd(m[i]); }
+                Fastor::internal::_MM_TRANSPOSE4_PD(r[0], r[1], r[2], r[3]);
+                for (int i = 0; i < 4; ++i) { alignas(32) double o[4]; _mm256_store_pd(o, r[i]); for (int j = 0; j < 4; ++j) { ++R.n; if (o[j] != m[j][i]) R.fail("row " + std::to_string(i) + " col " + std::to_string(j)); } } }
+            R.end(); }
+#endif
+    }
 }
 using sr::run_simd;
